@@ -37,11 +37,78 @@ fn gen(tier: &str, seed: u64, out: &mut dyn FnMut(String)) {
         out(format!("index_at {a} {}", show_list(&far)));
         out(format!("index_to_coord {a} {}", n + 100000));
     }
+    gen_ext(tier, &mut rng, out);
+}
+
+/// extension: `slice(range)` and `indices_at(indices)`; answers are whole arrays (`shape:elems`)
+fn gen_ext(tier: &str, rng: &mut Rng, out: &mut dyn FnMut(String)) {
+    let thorough = tier == "thorough";
+    let mut sh = if thorough { shapes(1, 4, 1, 4) } else { shapes(1, 4, 1, 3) };
+    // an axis of length 5 in every position of rank 1..3 (windows 2..4 that differ from the row size)
+    for other in 1..=3usize {
+        sh.push(vec![5]);
+        sh.extend(vec![vec![5, other], vec![other, 5], vec![5, other, 2], vec![2, 5, other], vec![other, 2, 5], vec![5, 2, other]]);
+    }
+    sh.push(vec![5, 5]);
+    // rank 0, the empty array, zero-length axes in every position
+    sh.extend(vec![vec![], vec![0], vec![0, 0], vec![0, 2], vec![2, 0], vec![3, 0], vec![0, 3, 2], vec![2, 0, 3], vec![2, 3, 0], vec![1, 0], vec![0, 1]]);
+    sh.sort(); sh.dedup();
+    for s in &sh {
+        let a = tag(s);
+        let n: usize = s.iter().product();
+        let d0 = s.first().copied().unwrap_or(0);
+        // ---- slice: every range 0 <= start, end <= len+1 on small arrays (valid, start > end, end > len);
+        // on larger ones every start with every window length 0..=shape[0]+2, the ends len-1, len, len+1 and end = start-1
+        if n <= 12 {
+            for st in 0..=n + 1 { for en in 0..=n + 1 { out(format!("slice {a} {st} {en}")); } }
+        } else {
+            for st in 0..=n + 1 {
+                for w in 0..=d0 + 2 { out(format!("slice {a} {st} {}", st + w)); }
+                for en in [n - 1, n, n + 1] { if en > st + d0 + 2 || en < st { out(format!("slice {a} {st} {en}")); } }
+                if st > 0 && st - 1 != n - 1 && st - 1 != n { out(format!("slice {a} {st} {}", st - 1)); }
+            }
+        }
+        out(format!("slice {a} 0 {}", n + 100000));
+        out(format!("slice {a} {} {}", n + 100000, n + 100001));
+        // ---- indices_at: every index list of length <= 3 over 0..=shape[0] (shape[0] itself is out of range),
+        // the reversed and the doubled full list, a far-out index
+        let vals = d0 + 1 + (n == 0) as usize;
+        for l in 0..=3usize {
+            for c in boxes(&vec![vals; l]) { out(format!("indices_at {a} {}", show_list(&c))); }
+        }
+        let full: Vec<usize> = (0..d0).rev().collect();
+        let dbl: Vec<usize> = (0..d0).chain(0..d0).collect();
+        out(format!("indices_at {a} {}", show_list(&full)));
+        out(format!("indices_at {a} {}", show_list(&dbl)));
+        out(format!("indices_at {a} {}", d0 + 1000));
+        out(format!("indices_at {a} 0,{}", d0 + 1000));
+    }
+    // seeded random stream beyond the scope: rank <= 5, length <= 6
+    let n_rand = if thorough { 3000 } else { 400 };
+    for _ in 0..n_rand {
+        let s = rng.shape(1, 5, 6);
+        let a = tag_off(&s, rng.below(1000) as i64);
+        let n: usize = s.iter().product();
+        let st = if rng.below(3) == 0 { rng.below(n + 2) } else { rng.below(s[0] + 2) };
+        let en = match rng.below(4) { 0 => rng.below(n + 2), 1 => st + 1, _ => st + rng.below(s[0] + 2) };
+        out(format!("slice {a} {st} {en}"));
+        let l = rng.below(7);
+        let idx: Vec<usize> = (0..l).map(|_| { let extra = (rng.below(8) == 0) as usize; rng.below(s[0] + extra) }).collect();
+        out(format!("indices_at {a} {}", show_list(&idx)));
+    }
+}
+
+/// whole-array answer; every array the real crate returns also goes through the C01 monitor
+fn arr_answer(r: Result<Array<i64>, ArrayError>) -> String {
+    if let Ok(x) = &r { if !consistent(x) { return format!("inconsistent {}", show_arr(x)); } }
+    res_arr(&r)
 }
 
 fn exec(op: &str, args: &[&str], expected: &str) -> Option<Verdict> {
     let a = parse_arr_i64(args[0]);
     let observed = match op {
+        "slice" => { let s: usize = args[1].parse().ok()?; let e: usize = args[2].parse().ok()?; guarded(|| arr_answer(a.slice(s..e))) }
+        "indices_at" => { let l = parse_usize_list(args[1]); guarded(|| arr_answer(a.indices_at(&l))) }
         "index_at" => { let c = parse_usize_list(args[1]); guarded(|| show_res(&a.index_at(&c), |v| v.to_string())) }
         "index_to_coord" => { let i: usize = args[1].parse().ok()?; guarded(|| show_res(&a.index_to_coord(i), |v| show_list(v))) }
         "at" => { let c = parse_usize_list(args[1]); guarded(|| show_res(&a.at(&c), |v| v.to_string())) }
@@ -60,5 +127,5 @@ fn nontrivial(_op: &str, args: &[&str]) -> bool {
 
 fn main() {
     harness_main(Spec { prop: "C02", gen, exec, nontrivial, hang_secs: 20,
-        rule: "exhaustive: every shape (rank<=4 len<=3 quick / len<=4 thorough; rank 5 len<=2 / <=3) x every flat index 0..len+1 x every coordinate vector of the box enlarged by one per axis, wrong-length vectors, far-out values; + seeded random shapes rank<=5 len<=6. distinct = distinct case lines; non-trivial = array with >=2 axes longer than 1" });
+        rule: "exhaustive: every shape (rank<=4 len<=3 quick / len<=4 thorough; rank 5 len<=2 / <=3) x every flat index 0..len+1 x every coordinate vector of the box enlarged by one per axis, wrong-length vectors, far-out values; + seeded random shapes rank<=5 len<=6. slice / indices_at: every shape rank<=4 len<=3 (<=4 thorough) + an axis of length 5 + rank 0 and zero-length axes x every range 0<=start,end<=len+1 (arrays of <=12 elements; larger: every start x windows 0..shape[0]+2 and the ends len-1,len,len+1,start-1) x every index list of length<=3 over 0..=shape[0], reversed/doubled full lists, far-out values; + seeded random rank<=5 len<=6. distinct = distinct case lines; non-trivial = array with >=2 axes longer than 1" });
 }
